@@ -412,8 +412,6 @@ func (f *Frame) lookup(bi *BInfo, x *ssa.Lookup) {
 	case *types.Map:
 		m, k := f.val(x.X), f.val(x.Index)
 		v, has := g.mapLookup(st, m, k.S)
-		// a nil map has no entries
-		has = sAnd(sNot(sEq(m.S, "0")), has)
 		val := mk(sIte(has, v.S, g.zero(u.Elem()).S), v.Sort, u.Elem())
 		if len(val.S) > 40 {
 			c := g.freshConst("lk:"+f.tag+":"+x.Name(), val.Sort)
